@@ -1034,6 +1034,15 @@ Proof.
   - intros pg act sel Hst. rewrite Hst in Ist. destruct Ist as (Hs & _ & Ha). split; [exact Hs | exact Ha].
 Qed.
 
+(* a layout switch replaces the syllable editor only; the list it may shorten is re-paged by clamp_page *)
+Theorem ed_set_layout_inv e L e' : Inv e -> ed_set_layout dops sops e L = Ok e' -> Inv e'.
+Proof.
+  intros [[W Dk Sy Pp] Ist] H. unfold ed_set_layout in H. eapply clamp_page_inv; [| | exact H]; unfold ed_set_layout_pinned; cbn [sh st].
+  - constructor; cbn; assumption.
+  - intros pg act sel Hst. rewrite Hst in Ist. destruct Ist as (Hs & _ & Ha).
+    split; [eapply sel_inv_view; [|exact Hs] | eapply act_ok_view; [| |exact Ha]]; reflexivity.
+Qed.
+
 Lemma with_phrase_sel_inv e f e' b : Inv e ->
   (forall pg act p p', ps_ok p -> f pg act p = Ok (Some p') -> ps_ok p' /\ ps_com p' = ps_com p) ->
   with_phrase_sel e f = Ok (e', b) -> Inv e'.
@@ -1098,6 +1107,7 @@ Proof.
   - apply fst_ok_ok in H as (b & H). eapply ed_jump_inv; [exact I | right; right; right; exact H].
   - apply fst_ok_ok in H as (b & H). eapply ed_learn_c_inv; eassumption.
   - eapply ed_unlearn_c_inv; eassumption.
+  - eapply ed_set_layout_inv; eassumption.
 Qed.
 
 Theorem run_inv ops : forall e e', Forall op_ok ops -> Inv e -> run dops sops conv e ops = Ok e' -> Inv e'.
